@@ -1145,6 +1145,34 @@ func ruleC03Parse(c *Checker) {
 		if b, isC := constBool(st.Val); isC && b {
 			nNeg++
 			c.check(guarded(st.Block(), bangT), R, name, "negated set on '!'", p.Pos(st.Pos()), "rule.negated = true only for lines starting with '!'", "a rule is marked negated without a leading '!'")
+		} else if ph, ok := st.Val.(*ssa.Phi); ok {
+			// the flag comes out of the line parser as a value: true on the ways in that are past the '!' test only
+			okAll, some := true, false
+			for i, e := range ph.Edges {
+				b, isC := constBool(e)
+				if !isC {
+					okAll = false
+					continue
+				}
+				if !b {
+					continue
+				}
+				some = true
+				pr := ph.Block().Preds[i]
+				onEdge := false
+				for _, be := range bangT {
+					if be.From == pr && be.To() == ph.Block() {
+						onEdge = true
+					}
+				}
+				if !onEdge && !guarded(pr, bangT) {
+					okAll = false
+				}
+			}
+			if some {
+				nNeg++
+				c.check(okAll, R, name, "negated set on '!'", p.Pos(st.Pos()), "rule.negated is true only on the ways that are past the '!' test", "a rule is marked negated without a leading '!'")
+			}
 		}
 	})
 	c.check(nNeg > 0 && len(bangT) > 0, R, name, "'!' recognised", p.Pos(rd.Pos()), "a leading '!' negates the rule", "a leading '!' is no longer recognised as negation")
